@@ -70,7 +70,7 @@ func verifC17() {
 	var counter, base int32 = 0, verifC17Versions[cur].b
 	var fv, bm, inst Value
 	haveFv, haveBm, haveInst := false, false, false
-	var instV int32
+	var instV, bmV int32
 	call1 := func(rets []Value, err error, want int32, id string) {
 		verifAssert(err == nil && len(rets) == 1, id+"/outcome")
 		if err == nil && len(rets) == 1 {
@@ -109,14 +109,14 @@ func verifC17() {
 			if haveInst {
 				rets, err := vm.Call("main.Bound", 1, inst)
 				if err == nil && len(rets) == 1 {
-					bm, haveBm = rets[0], true
+					bm, haveBm, bmV = rets[0], true, instV
 				}
 			}
 		case 6:
 			if haveBm {
 				v := verifC17Versions[cur]
 				rets, err := vm.Func(bm, 1, Int32(a))
-				call1(rets, err, instV*v.c+a, "C17/captured-bound-method-runs-new-code-on-old-instance")
+				call1(rets, err, bmV*v.c+a, "C17/captured-bound-method-runs-new-code-on-old-instance")
 			}
 			if haveInst {
 				v := verifC17Versions[cur]
@@ -128,6 +128,25 @@ func verifC17() {
 			verifAssert(err == nil, "C17/bump")
 			base += 1000
 		}
+	}
+	// whatever was captured during the history must run the code of the version loaded last
+	if haveFv {
+		v := verifC17Versions[cur]
+		x := verifInt32("final_fv")
+		rets, err := vm.Func(fv, 1, Int32(x))
+		call1(rets, err, x*v.m+v.a, "C17/final/captured-function-value-runs-new-code")
+	}
+	if haveBm {
+		v := verifC17Versions[cur]
+		x := verifInt32("final_bm")
+		rets, err := vm.Func(bm, 1, Int32(x))
+		call1(rets, err, bmV*v.c+x, "C17/final/captured-bound-method-runs-new-code")
+	}
+	if haveInst {
+		v := verifC17Versions[cur]
+		x := verifInt32("final_inst")
+		rets, err := vm.Call("main.CallVal", 1, inst, Int32(x))
+		call1(rets, err, instV*v.c+x, "C17/final/method-on-old-instance-runs-new-code")
 	}
 	v := verifC17Versions[cur]
 	counter++
